@@ -31,7 +31,7 @@ def pipeline_fn(f):
     return out
 
 
-def run(ctx):
+def _run_rules(ctx):
     rep, f, cg = ctx.rep, ctx.facts, ctx.cg
     rep.trust('rayon: map calls its closure once per item, max returns a maximal item by Ord (documented behaviour)')
     pfs = pipeline_fn(f)
@@ -135,7 +135,26 @@ def run(ctx):
                 up = tuple(field_path(o['p']))
                 k = min(len(up), len(cnt_path))
                 if up[:k] == cnt_path[:k] and (up or not cnt_path):
-                    bad.append(bi)      # the place read is the count, a part of it, or a struct containing it
+                    bad.append((bi, si, pl))      # the place read is the count, a part of it, or a struct containing it
+        if bad:
+            # a replica that only REPORTS the count ("3 of 100 replicas complete"): every read of it inside the replica flows into
+            # the arguments of a log / print line and nowhere else
+            from .C09 import _flows_only_to_log
+            seeds = set()
+            for bi, si, pl in bad:
+                blk = b.blocks[bi]
+                st_ = blk['stmts'][si] if isinstance(si, int) and si < len(blk['stmts']) else None
+                if st_ is not None and st_['s'] == 'assign' and not st_['place']['p']:
+                    seeds.add(st_['place']['l'])
+                elif si == 'term' and not pl.get('p') and pl.get('l') != cnt_local:
+                    seeds.add(pl['l'])          # a local that already holds (a reference to) the count, used by a call
+                else:
+                    seeds = None
+                    break
+            if seeds and _flows_only_to_log(b, seeds) is True:
+                rep.note('R6: the replication count is read inside a replica only to be reported in a log line')
+                bad = []
+        bad = [x[0] if isinstance(x, tuple) else x for x in bad]
         rep.check(not bad, 'R6', 'replica-does-not-use-count', where(b, bad[0]) if bad else where(b),
                   'no value inside the replica loop derives from the replication count',
                   'a replica reads the replication count: replica i is no longer the same computation for every count > i')
@@ -195,6 +214,8 @@ def run(ctx):
     # structure with another score)
     from .common import import_obligations
     import_obligations(ctx, 'C11', 'R7', only_rules={'R1'}, floor=40)
+    # R9: one (state kind, shape constructor) per (shape, potential) request: no two arms of the dispatch build the same thing
+    _dispatch(ctx)
     # R8: "records the requested ... shape": the command line's values reach the constructors under their own names
     from .common import named_argument_wiring
     named_argument_wiring(ctx, 'R8', [b for b in f.bodies.values() if b.crate_kind == 'bin' and not b.is_closure and not b.derived],
@@ -785,3 +806,59 @@ def _main(ctx):
                   'analyse_state(args.outfile, args.replications, X::from_group(shape, &wg)?, &args.optimisation)',
                   'a main arm does not pass outfile/replications/group/optimisation as requested: outfile=%s replications=%s '
                   'state-from-group=%s group-is-lookup=%s optimisation=%s' % (ok0, ok1, ok2, okg, ok3))
+
+
+def _dispatch(ctx):
+    """The command line turns each (shape, potential) request into `pipeline(.., State::from_group(Shape::ctor(..), &group), ..)`: the
+    (state constructor, shape constructor) pairs of the arms are pairwise different (a copied arm makes two different requests
+    produce the same kind of structure: the written file does not record what was asked for)."""
+    rep, f = ctx.rep, ctx.facts
+    pfs = pipeline_fn(f)
+    if len(pfs) != 1:
+        return
+    pf = pfs[0]
+    pairs = []
+    for b in f.bodies.values():
+        if b.crate_kind != 'bin' or b.is_closure or b is pf:
+            continue
+        tr = None
+        for bi, t in b.calls():
+            cb = f.body_of_fnconst(t['func']) if t['func'].get('k') == 'const' else None
+            if cb is None or not (cb is pf or cb.path == pf.path):
+                continue
+            tr = tr or Tracer(b)
+            for a in t['args']:
+                if 'l' not in a:
+                    continue
+                o, _st = through(tr, a)
+                if o['o'] != 'call' or not (callee_name(o['term']) or '').endswith('::from_group'):
+                    continue
+                shape = None
+                for a2 in o['term']['args']:
+                    if 'l' in a2:
+                        o2, _s2 = through(tr, a2)
+                        if o2['o'] == 'call' and f.norm(callee_name(o2['term']) or '').split('::<')[0] not in ('',) and \
+                                not (callee_name(o2['term']) or '').endswith(('get_wallpaper_group', '::from_group')):
+                            shape = f.norm(callee_name(o2['term'])).replace('packing::', '')
+                            break
+                pairs.append((f.norm(callee_name(o['term'])).replace('packing::', ''), shape, where(b, bi)))
+    if not rep.floor('R9', 'pipeline calls in the command line\'s dispatch', len(pairs), 4):
+        return
+    seen = {}
+    dup = None
+    for st, sh, w in pairs:
+        if (st, sh) in seen:
+            dup = (st, sh, seen[(st, sh)], w)
+        seen[(st, sh)] = w
+    rep.check(dup is None, 'R9', 'dispatch-arms-build-different-structures', dup[3] if dup else pairs[0][2],
+              '%d requests, %d different (state, shape constructor) pairs' % (len(pairs), len(seen)),
+              'two arms of the dispatch build the same structure %s(%s): one of the requests is answered with something else' %
+              ((dup[0], dup[1]) if dup else ('', '')))
+
+
+def run(ctx):
+    _run_rules(ctx)
+    from .common import import_obligations
+    # every replica stage is seeded with the replica index (C09.R4 / R6): otherwise a replica is not the same computation in every run
+    import_obligations(ctx, 'C09', 'R10', only_rules={'R4', 'R6'}, floor=3)
+
